@@ -492,6 +492,20 @@ class C11(F.PropCheck):
                     if lastloc == t: lastloc = None; continue          # the action of a notify (logged by input.c)
                     if t >= k['MOTION_INIT_MS'] * MS and ints[2] != rec:
                         v.append('S: start-up synchronisation at %d us set the relay to %d while the recognised state is %d' % (t, ints[2], rec)); break
+        # ---- O  bistable / motion inputs in action-trigger mode: every recognised change is reported by exactly one
+        #         TURN_ON / TURN_OFF when the server enabled it (not judged while the click counter is parked at -1)
+        if cfg['typ'] in (4, 8) and cfg['channel'] != 255:
+            for idx, (kind, ints, a) in enumerate(seq):
+                if kind != 'NOTIFY' or ints[1] == ints[2] or ints[0] < SIL or a == 0 or ints[3] == -1: continue
+                t, new = ints[0], ints[1]; bit = k['CAP_TURN_ON'] if new == 1 else k['CAP_TURN_OFF']
+                got = 0; entered = False
+                for (k2, i2, a2) in seq[idx + 1:]:
+                    if k2 == 'CFGMODE': entered = True
+                    if k2 in ('NOTIFY', 'TRIGSET', 'FINAL', 'CFGMODE') or i2[0] > t: break
+                    if k2 == 'TRIG' and i2[2] == bit: got += 1
+                if entered: continue
+                if got != (1 if a & bit else 0):
+                    v.append('O: state %d recognised at %d us: %d %s triggers, expected %d' % (new, t, got, 'TURN_ON' if new == 1 else 'TURN_OFF', 1 if a & bit else 0)); break
         # ---- T
         if cfg['typ'] in (2, 4):
             v += self.monitor_at(cfg, seq, busy, relsw, tend)
